@@ -488,8 +488,10 @@ func runC14Configured(r *Run) {
 				q.SetEdns0(1232, false)
 			}
 			qCtx := query_context.NewContext(q)
+			_, priorStr := prior14(r, q, qCtx)
 			desc := map[string]any{"config": conf, "built_via": via, "entry_leads_to_server": strings.Join(targets, ","), "tag_subset_entries": subsetStr,
-				"servers(id:behaviour+delay(addresses))": strings.Join(srvDesc, " "), "qname": qname}
+				"servers(id:behaviour+delay(addresses))": strings.Join(srvDesc, " "), "qname": qname,
+				"response_already_in_the_context_before_the_call(rcode:origin)": priorStr}
 			meter := startStallMeter()
 			ctx, cancel := context.WithTimeout(context.Background(), budget)
 			t0 := time.Now()
